@@ -1,6 +1,7 @@
 import Hive.Proofs.C12aShrink
 import Hive.Proofs.C12aRandomMap
 import Hive.Proofs.C12aHeapSpec
+import Hive.Proofs.C12aHeapSign
 import Hive.Proofs.C12aQueue
 import Hive.Proofs.C12aRing
 import Hive.Proofs.C12aStack
@@ -306,6 +307,29 @@ priority order, `Size`/`IsEmpty` count the multiset. -/
 theorem C12_heap_refines_priority_multiset (cmp : Heap.Cmp) (ops : List Heap.Op) :
     Heap.AllowedRun (Heap.init cmp) ops :=
   Heap.run_allowed _ (Heap.inv_init cmp) ops
+
+/-- **Only the sign of `CompareTo` matters**: two comparators that agree in sign on every pair of keys
+(`Heap.SameSign`: the same pairs answer `< 0`, the same pairs answer `≤ 0`) give, for every history, the
+same answers, the same array layout and the same index fields — so the `-1/0/1` comparators of the
+repository, `a - b`, `MinInt64/MaxInt64` … are interchangeable.  (A `Less` that tests
+`CompareTo == -1`, seeded change r6-1, is not invariant: see the example below.) -/
+theorem C12_heap_depends_only_on_sign (c d : Heap.Cmp) (h : Heap.SameSign c d) (ops : List Heap.Op) :
+    (Heap.run (Heap.init d) ops).2 = (Heap.run (Heap.init c) ops).2 ∧
+    (Heap.run (Heap.init d) ops).1.arr = (Heap.run (Heap.init c) ops).1.arr ∧
+    (Heap.run (Heap.init d) ops).1.idx = (Heap.run (Heap.init c) ops).1.idx := by
+  have e := Heap.run_withCmp (Heap.init c) d h ops
+  have hi : (Heap.init c).withCmp d = Heap.init d := rfl
+  rw [hi] at e
+  rw [e]
+  exact ⟨rfl, rfl, rfl⟩
+
+/-- The hypothesis is satisfiable by comparators that differ in every magnitude: `-1/0/1` and `a - b`;
+and the test `== -1` of seeded change r6-1 tells them apart (10 vs 50: `-1` against `-40`). -/
+example : Heap.SameSign Heap.Cmp.asc Heap.Cmp.diff ∧
+    (Heap.Cmp.asc.f 10 50 == -1) = true ∧ (Heap.Cmp.diff.f 10 50 == -1) = false := by
+  refine ⟨fun a b => ?_, by decide, by decide⟩
+  simp only [Heap.Cmp.asc, Heap.Cmp.ofSign, Heap.Cmp.diff]
+  by_cases h1 : a < b <;> by_cases h2 : b < a <;> simp [h1, h2] <;> omega
 
 /-- The comparators are not vacuous and differ in everything but the sign: the same pair of keys
 answers `-1`, `-40`, `MinInt64`, `-3`; reversed `1`, `40`, `MaxInt64`, `5`. -/
